@@ -117,11 +117,17 @@ def lean_files_of(prop, modules):
 
 def drive(driver, lines, timeout=3000):
     """pipe protocol lines to lean/Drivers/<driver>.lean; returns the output lines"""
+    # the driver runs against compiled modules: make sure every module it imports is up to date (a stale .olean of a module
+    # that depends on a regenerated Gen/*.lean would be loaded without any check)
+    dsrc = open(os.path.join(LEAN, 'Drivers', driver + '.lean')).read()
+    mods = re.findall(r'^import\s+(CvxVerif\.\S+)', dsrc, flags=re.M)
+    ok, log = lean_build(mods)
+    if not ok: raise RuntimeError('modules of driver %s do not build: %s' % (driver, log[-1500:]))
     inp = '\n'.join(lines) + '\n'
     rc, out, err = run(['lake', 'env', 'lean', '--run', os.path.join('Drivers', driver + '.lean')],
                        cwd=LEAN, input=inp, timeout=timeout)
     if rc != 0:
-        raise RuntimeError('driver %s failed: %s' % (driver, (out + err)[-2000:]))
+        raise RuntimeError('driver %s failed (rc %s): stderr %s ... stdout tail %s' % (driver, rc, err[-1500:], out[-300:]))
     res = out.split('\n')
     if res and res[-1] == '': res.pop()
     if len(res) != len(lines):
